@@ -7,6 +7,7 @@ import (
 	"github.com/freeconf/yang/node"
 	"github.com/freeconf/yang/nodeutil"
 	"github.com/freeconf/yang/parser"
+	"pgregory.net/rapid"
 
 	"verif/harness/hx"
 )
@@ -23,7 +24,10 @@ type c13OddCase struct {
 	How    string `json:"how"` // setvalue | upsert-json | newvalue
 }
 
-var c13OddSchemas = []struct{ Name, Body string; Leaves []string }{
+var c13OddSchemas = []struct {
+	Name, Body string
+	Leaves     []string
+}{
 	{"leafref-cycle-2", `leaf a { type leafref { path "../b"; } } leaf b { type leafref { path "../a"; } }`, []string{"a", "b"}},
 	{"leafref-cycle-3", `leaf a { type leafref { path "../b"; } } leaf b { type leafref { path "../c"; } } leaf c { type leafref { path "../a"; } }`, []string{"a", "c"}},
 	{"leafref-self", `leaf a { type leafref { path "../a"; } }`, []string{"a"}},
@@ -97,5 +101,109 @@ var c13Odd = hx.Register(&hx.Check[c13OddCase]{
 				}
 			}
 		})
+	},
+})
+
+// ---- lists keyed by the less common types, made by edits in stores the library fills itself --------------------
+
+type c13KeyCase struct {
+	KeyType string   `json:"keyType"` // the type statement of the key leaf
+	Keys    []string `json:"keys"`    // JSON texts of the key values of the entries written
+	Store   string   `json:"store"`   // reflect-map | node-map
+	Lookup  string   `json:"lookup"`  // the key text given to Find (URL form)
+}
+
+var c13KeyTypes = []struct {
+	Name, Type string
+	JSON       []string // key values as JSON
+	URL        []string // the same as path text
+}{
+	{"binary", "binary", []string{`"AAEC"`, `"aGk="`}, []string{"AAEC", "aGk%3D"}},
+	{"union-binary", "union { type binary; type int32; }", []string{`"AAEC"`, `7`}, []string{"AAEC", "7"}},
+	{"bits", "bits { bit x; bit y; }", []string{`"x y"`, `"y"`}, []string{"x%20y", "y"}},
+	{"decimal64", "decimal64 { fraction-digits 2; }", []string{`"1.50"`, `"2.25"`}, []string{"1.50", "2.25"}},
+	{"boolean", "boolean", []string{`true`, `false`}, []string{"true", "false"}},
+	{"enumeration", "enumeration { enum one; enum two; }", []string{`"one"`, `"two"`}, []string{"one", "two"}},
+	{"identityref", "identityref { base idb; }", []string{`"ida"`, `"idc"`}, []string{"ida", "idc"}},
+	{"uint64", "uint64", []string{`"18446744073709551615"`, `"0"`}, []string{"18446744073709551615", "0"}},
+	{"string-list-like", "string", []string{`"[1 2]"`, `""`}, []string{"%5B1%202%5D", ""}},
+}
+
+var c13Keys = hx.Register(&hx.Check[c13KeyCase]{
+	Name:    "c13-odd-keys",
+	Journal: true,
+	Rule:    "a list keyed by a binary, a union with a binary member, bits, decimal64, boolean, enumeration, identityref, uint64 or an odd string, in an empty map-backed Reflect or Node store: two entries are upserted from JSON, looked up by key (present and absent), one is deleted and the store is read: a result or an error at every step, never a crash; when the upsert succeeds both entries are found; every case is non-trivial",
+	Gen: func(t *rapid.T) c13KeyCase {
+		kt := c13KeyTypes[rapid.IntRange(0, len(c13KeyTypes)-1).Draw(t, "keytype")]
+		return c13KeyCase{KeyType: kt.Name, Keys: kt.JSON, Store: rapid.SampledFrom([]string{"reflect-map", "node-map"}).Draw(t, "store"),
+			Lookup: rapid.SampledFrom(append(append([]string{}, kt.URL...), "nope", "", "%00")).Draw(t, "lookup")}
+	},
+	Run: func(c c13KeyCase, o *hx.Obs) {
+		o.NonTrivial()
+		o.Class("key=%s", c.KeyType)
+		o.Class("store=%s", c.Store)
+		var kt struct {
+			Name, Type string
+			JSON       []string
+			URL        []string
+		}
+		for _, k := range c13KeyTypes {
+			if k.Name == c.KeyType {
+				kt = k
+			}
+		}
+		if kt.Name == "" {
+			return
+		}
+		y := "module odd { namespace \"urn:odd\"; prefix o; identity idb; identity ida { base idb; } identity idc { base idb; } list l { key k; leaf k { type " + kt.Type + map[bool]string{true: "", false: ";"}[strings.HasSuffix(kt.Type, "}")] + " } leaf v { type string; } } }"
+		m, err := parser.LoadModuleFromString(nil, y)
+		if err != nil {
+			o.Failf("harness|schema-rejected", "%v\n%s", err, y)
+			return
+		}
+		data := map[string]interface{}{}
+		mk := func() node.Node {
+			if c.Store == "node-map" {
+				return &nodeutil.Node{Object: data}
+			}
+			return nodeutil.ReflectChild(data)
+		}
+		var uerr error
+		if o.Guard("upsert", func() {
+			doc := fmt.Sprintf(`{"l":[{"k":%s,"v":"first"},{"k":%s,"v":"second"}]}`, c.Keys[0], c.Keys[1])
+			n, jerr := nodeutil.ReadJSON(doc)
+			if jerr != nil {
+				uerr = jerr
+				return
+			}
+			uerr = node.NewBrowser(m, mk()).Root().UpsertFrom(n)
+		}) {
+			return
+		}
+		if uerr != nil {
+			o.Class("upsert=error")
+		}
+		for i, u := range kt.URL {
+			var sel *node.Selection
+			var ferr error
+			if o.Guard("Find(present)", func() { sel, ferr = node.NewBrowser(m, mk()).Root().Find("l=" + u) }) {
+				return
+			}
+			if uerr == nil && (ferr != nil || sel == nil) {
+				o.Failf("odd-key|"+c.KeyType+"|"+c.Store+"|missed", "after an upsert that succeeded Find(l=%s) for entry %d gives sel=%v err=%v; store %v", u, i, sel != nil, ferr, data)
+				return
+			}
+		}
+		if o.Guard("Find(lookup)", func() { node.NewBrowser(m, mk()).Root().Find("l=" + c.Lookup) }) {
+			return
+		}
+		if o.Guard("delete", func() {
+			if sel, ferr := node.NewBrowser(m, mk()).Root().Find("l=" + kt.URL[0]); ferr == nil && sel != nil {
+				sel.Delete()
+			}
+		}) {
+			return
+		}
+		o.Guard("read", func() { nodeutil.WriteJSON(node.NewBrowser(m, mk()).Root()) })
 	},
 })
